@@ -153,8 +153,10 @@ def chain_arms(ifnode):
     return arms
 
 
-def raise_class(ctx, module, st):
-    """Name of the exception class a Raise statement raises (resolved), or None."""
+def raise_class(ctx, module, st, cls=None):
+    """Name of the exception class a Raise statement raises (resolved), or None.  With the class
+    the method is analysed for, `self.X` / `cls.X` / `Class.X` is followed to a class-level binding
+    of X (own or inherited) that names an exception class."""
     if st.exc is None:
         return "<re-raise>"
     n = st.exc.func if isinstance(st.exc, ast.Call) else st.exc
@@ -163,6 +165,12 @@ def raise_class(ctx, module, st):
         if r and r[0] == "class":
             return r[1].name
         return n.id
+    if cls is not None and isinstance(n, ast.Attribute) and isinstance(n.value, ast.Name) and n.attr in getattr(cls, "class_assigns", {}):
+        cm, cnode = cls.class_assigns[n.attr]
+        if isinstance(cnode, ast.Name):
+            r = ctx.repo.resolve_global(cm, cnode.id)
+            if r and r[0] == "class":
+                return r[1].name
     return norm_src(n)
 
 
@@ -576,7 +584,7 @@ def _idiom_summary(ctx, v, led):
     for n in ast.walk(pv.node):
         if isinstance(n, ast.Raise):
             n_raise += 1
-            rc = raise_class(ctx, module, n)
+            rc = raise_class(ctx, pv.module, n, cls)
             led.check(
                 rc == malformed,
                 "C04.kinds",
@@ -587,7 +595,7 @@ def _idiom_summary(ctx, v, led):
     for n in ast.walk(cm.node):
         if isinstance(n, ast.Raise):
             n_raise += 1
-            rc = raise_class(ctx, module, n)
+            rc = raise_class(ctx, cm.module, n, cls)
             led.check(
                 rc == mandatory_exc,
                 "C04.kinds",
